@@ -3,7 +3,7 @@
  "name": "gen32_ffz",
  "props": ["C16"],
  "level": "U",
- "tier": "wip",
+ "tier": "quick",
  "harness": "h_g32_ff",
  "defines": ["FF_OP=0"],
  "enforce": ["ext2fs_find_first_zero_generic_bitmap"],
@@ -21,7 +21,7 @@
  "name": "gen32_ffs",
  "props": ["C16"],
  "level": "U",
- "tier": "wip",
+ "tier": "quick",
  "harness": "h_g32_ff",
  "defines": ["FF_OP=1"],
  "enforce": ["ext2fs_find_first_set_generic_bitmap"],
@@ -31,6 +31,43 @@
  "assumes": ["bit array capped at 2^20 bits (object-size cap); geometry, content, start, end otherwise symbolic",
              "the handle is a legacy 32-bit bitmap (the function has no magic check; its caller ext2fs_find_first_set_generic_bmap checks the magic number first)",
              "bitmap end < 2^32 - 1: with end == 0xFFFFFFFF and no hit the 32-bit counter `start++` wraps to 0 and the scan does not terminate / leaves the array (observation in the agent report; needs a legacy bitmap that ends at number 2^32 - 1)"],
+ "native": true
+}
+*/
+
+/* VERIF-UNIT
+{
+ "name": "gen32_ffz_top",
+ "props": ["C16"],
+ "level": "U",
+ "tier": "quick",
+ "harness": "h_g32_ff",
+ "defines": ["FF_OP=0", "G32_FF_TOP"],
+ "enforce": ["ext2fs_find_first_zero_generic_bitmap"],
+ "loop_contracts": true,
+ "sources": ["lib/ext2fs/bitops.c"],
+ "functions": ["lib/ext2fs/gen_bitmap.c:ext2fs_find_first_zero_generic_bitmap", "lib/ext2fs/bitops.c:ext2fs_test_bit"],
+ "assumes": ["same as gen32_ffz but WITHOUT the assumption bitmap end < 2^32 - 1: fails on the pinned tree (findings/C16_gen_ff32_wrap), green with findings/C16_gen_ff32_wrap/proposed-fix.patch",
+             "bit array capped at 2^20 bits (object-size cap)",
+             "the handle is a legacy 32-bit bitmap"],
+ "native": true
+}
+*/
+/* VERIF-UNIT
+{
+ "name": "gen32_ffs_top",
+ "props": ["C16"],
+ "level": "U",
+ "tier": "quick",
+ "harness": "h_g32_ff",
+ "defines": ["FF_OP=1", "G32_FF_TOP"],
+ "enforce": ["ext2fs_find_first_set_generic_bitmap"],
+ "loop_contracts": true,
+ "sources": ["lib/ext2fs/bitops.c"],
+ "functions": ["lib/ext2fs/gen_bitmap.c:ext2fs_find_first_set_generic_bitmap", "lib/ext2fs/bitops.c:ext2fs_test_bit"],
+ "assumes": ["same as gen32_ffs but WITHOUT the assumption bitmap end < 2^32 - 1: fails on the pinned tree (findings/C16_gen_ff32_wrap), green with findings/C16_gen_ff32_wrap/proposed-fix.patch",
+             "bit array capped at 2^20 bits (object-size cap)",
+             "the handle is a legacy 32-bit bitmap"],
  "native": true
 }
 */
@@ -59,10 +96,15 @@
  *   ret == EINVAL => *out untouched, error hook once
  * The set is never changed (the bit array is not in the frame). */
 static __u32 OUT32;
+#ifdef G32_FF_TOP
+#define G32_TOP_OK(e) 1
+#else
+#define G32_TOP_OK(e) ((e) < 0xFFFFFFFFU)
+#endif
 static int pre32_ff(ext2fs_generic_bitmap bm, __u32 start, __u32 *out)
 {
 	return bm == GBM && IS32M(BM.magic) && BM.start <= BM.end && BM.end <= BM.real_end && BM.real_end - BM.start < G32_MAX_BITS &&
-	       BM.end < 0xFFFFFFFFU && verif_k <= BM.real_end - BM.start && PRE_LOG32 &&
+	       G32_TOP_OK(BM.end) && verif_k <= BM.real_end - BM.start && PRE_LOG32 &&
 	       out == &OUT32 && verif_g0 == start && verif_g1 == OUT32;
 }
 static int spec32_ff(__u32 s_, __u32 e_, errcode_t ret, int T)
@@ -96,7 +138,7 @@ void h_g32_ff(void)
 	errcode_t r;
 	build_bitmap();
 	ASSUME(IS32M(IN.magic));
-	ASSUME(IN.end < 0xFFFFFFFFU);
+	ASSUME(G32_TOP_OK(IN.end));
 	OUT32 = IN.num;
 	verif_g0 = IN.arg;
 	verif_g1 = OUT32;
@@ -113,5 +155,8 @@ void h_g32_ff(void)
 	if (r == ENOENT && verif_k >= IN.arg - IN.start && verif_k <= IN.arg2 - IN.start) REACH("ENOENT, k inside");
 	if (IN.arg2 > IN.end && IN.arg2 <= IN.real_end) REACH("end in the padding");
 	if (r == EINVAL) REACH("EINVAL");
+#ifdef G32_FF_TOP
+	if (IN.end == 0xFFFFFFFFU && IN.arg2 == 0xFFFFFFFFU && r != EINVAL) REACH("range ends at 2^32 - 1");
+#endif
 	REACH("end");
 }
